@@ -7,3 +7,4 @@
 pub mod escape;
 pub mod locks;
 pub mod units;
+pub mod arith;
